@@ -7,7 +7,7 @@
    The proofs are written against the SEMANTICS of the generated terms, not
    their layout: library forms are normalised to the model's, every test that
    remains is case-split, and loop invariants are stated about go_range. *)
-From Coq Require Import List NArith ZArith Bool Lia.
+From Coq Require Import List NArith ZArith Bool Lia ZifyBool.
 From P9 Require Import Base.Res Base.GoRt Model.Path Proofs.GoRtProofs Gen.GenPath.
 Import ListNotations.
 
@@ -15,16 +15,23 @@ Ltac lib_norm :=
   change go_str_eqb with bstr_eqb in *;
   unfold is_dot, is_dotdot, DOT in *;
   repeat first
-    [ rewrite go_len_zero_is_empty | rewrite go_contains_sep
+    [ rewrite go_len_zero_is_empty | rewrite bstr_eqb_nil | rewrite bstr_eqb_nil_l | rewrite go_contains_sep
     | rewrite go_contains_sep' | rewrite go_count_slash ].
 
 Ltac fold_tests := idtac.
 
-Ltac split_ifs :=
-  repeat match goal with
-  | |- context [if negb ?c then _ else _] => destruct c eqn:?; cbn [negb]
-  | |- context [if ?c then _ else _] => destruct c eqn:?
+Ltac destruct_atom c :=
+  lazymatch c with
+  | orb ?a _ => destruct_atom a
+  | andb ?a _ => destruct_atom a
+  | negb ?a => destruct_atom a
+  | _ => destruct c eqn:?
   end.
+
+(* case-split every test that remains, atom by atom (so that the same atom in two differently
+   shaped conditions is split once) *)
+Ltac split_ifs :=
+  repeat (match goal with |- context [if ?c then _ else _] => destruct_atom c end; cbn [orb andb negb]).
 
 (* ---- ValidPath ---- *)
 
@@ -118,7 +125,7 @@ Theorem gen_CreateName_eq : forall dir name,
     end.
 Proof.
   intros. unfold gen_CreateName, create_name. cbv zeta. lib_norm. fold_tests.
-  split_ifs; reflexivity.
+  split_ifs; first [reflexivity | exfalso; lia].
 Qed.
 
 Theorem gen_WalkName_eq : forall dir names,
@@ -132,7 +139,7 @@ Proof.
   intros. unfold gen_WalkName, walk_name. rewrite go_slice_removelast.
   destruct dir as [|c dir]; [reflexivity|].
   rewrite gen_ValidPath_eq. cbv zeta. lib_norm.
-  split_ifs; reflexivity.
+  split_ifs; first [reflexivity | exfalso; lia].
 Qed.
 
 Definition invalid_path_prefix : list N := [105; 110; 118; 97; 108; 105; 100; 32; 112; 97; 116; 104; 58; 32]%N.
@@ -146,5 +153,5 @@ Theorem gen_ToWalk_eq : forall p,
 Proof.
   intros. unfold gen_ToWalk, to_walk. rewrite gen_NormalizePath_eq. cbv zeta.
   destruct (normalize_path (split_slash (trim_slash p))) as [steps bsp].
-  split_ifs; reflexivity.
+  split_ifs; first [reflexivity | exfalso; lia].
 Qed.
